@@ -805,7 +805,9 @@ def run_hist(aa, inp):
                 elif route == "circular":
                     m = aa.Mask2D.circular(shape_native=(H, W), radius=1.5 * ps_exp[0], pixel_scales=ps, origin=org, centre=org_exp)
                 else:
-                    m = aa.Mask2D.from_primary_hdu(primary_hdu=aa.Mask2D(mask=a, pixel_scales=ps, origin=org).hdu_for_output, origin=org)
+                    # (the header is written from a mask with plain float-tuple scales: an isotropic int / numpy-float scale is written as one
+                    #  PIXSCALE number that convert_pixel_scales_2d -- type(x) is float -- does not expand on the way back; not C10's business)
+                    m = aa.Mask2D.from_primary_hdu(primary_hdu=aa.Mask2D(mask=a, pixel_scales=ps_exp, origin=org_exp).hdu_for_output, origin=org)
                 M = mask_out(np.array(m))
             else: arg = a.copy(); m = aa.Mask2D(mask=arg, pixel_scales=ps, origin=org)
             ob = add(m, M)
